@@ -265,3 +265,9 @@ def a_request_is_confirmed_only_by_its_own_ack(rr, f1, f2, n):
         assert r.communication_channel_id == req.communication_channel_id
         assert r.sequence_counter == req.sequence_counter
         assert r.status_code == ErrorCode.E_NO_ERROR
+
+
+ASSUMPTIONS = [
+    "asyncio is trusted behind the contract stubs: a cancelled task/future does not continue, asyncio.timeout cancels what it guards, locks are mutually exclusive, queues are FIFO, tasks switch only at awaits; interleavings inside one await are represented by 'the awaited object completes with any admissible value, times out, or the connection closes'",
+    "the reconnect task re-establishes the tunnel with counter 0 and a new channel or is cancelled (C25)",
+]
